@@ -85,6 +85,7 @@ inductive POp where
   | observe                                       -- `Observe()` and `Observation()`
   | transmit (keys : List Str)                    -- `ShouldTransmitAcceptedReport`
   | report (block : Str) (ids : List Str)         -- `Report` on observations `(block, [id])`
+  | failedPoll (w : PollFail) (performs stales : List Log)   -- a poll on which the log provider fails
 deriving DecidableEq, Repr
 
 /-- the coordinator-level operations a plugin-level operation amounts to -/
@@ -92,9 +93,17 @@ def acceptOps : List Str → List Op
   | [] => []
   | k :: ks => .accept k :: (if (splitUpkeepKey k).isSome then acceptOps ks else [])
 
+/-- the logs a failing poll still processes -/
+def failedOps (w : PollFail) (performs stales : List Log) : List Op :=
+  match w with
+  | .perform => []
+  | .stale => performs.map Op.perform
+  | .stalePartial => performs.map Op.perform ++ stales.map Op.stale
+
 def flat : POp → List Op
   | .co op => [op]
   | .acceptReport keys => acceptOps keys
+  | .failedPoll w performs stales => failedOps w performs stales
   | _ => []
 
 structure PState where
@@ -112,6 +121,7 @@ def pstep (cfg : Cfg) (ps : PState) (now : Nat) (pop : POp) : PState :=
   | .co op => { ps with coord := step cfg ps.coord now op }
   | .acceptReport keys => { ps with coord := (shouldAccept cfg ps.coord now keys).1 }
   | .head b a e => { ps with stage := stageHead ps.stage b a e }
+  | .failedPoll w performs stales => { ps with coord := checkLogsFailing cfg ps.coord now performs stales w }
   | _ => ps
 
 /-- what an operation answers -/
